@@ -321,3 +321,20 @@ func vxAllocs(f func()) int {
 	runtime.ReadMemStats(&ms)
 	return int(ms.Mallocs - before)
 }
+
+// vxSharedWatch: symbolically, from now on a write to a package-level variable of the package under
+// test with no mutex held is reported (lock-discipline); natively a no-op (confirmation is the race run).
+func vxSharedWatch(on bool) {}
+
+var vxGoBase int
+
+// vxJoinModel / vxGoroutinesLive: see zz_vx_c15j.go.  Natively: goroutines alive now minus those alive
+// when the model was switched on, measured on one P so that a goroutine nobody waited for cannot have run.
+func vxJoinModel(on bool) {
+	if on {
+		runtime.GOMAXPROCS(1)
+		vxGoBase = runtime.NumGoroutine()
+	}
+}
+
+func vxGoroutinesLive() int { return runtime.NumGoroutine() - vxGoBase }
